@@ -548,6 +548,7 @@ fn gen_conn(rng: &mut Rng) -> ConnScenario {
         wplan,
         cap_ns: 600_000_000_000,
         prelude: vec![],
+        growth: None,
     }
 }
 
